@@ -11,6 +11,16 @@ TRUSTED_BASE = [
 HIST = lambda name, q, t, args=None: {'name': name, 'cmd': 'hist', 'quick': q, 'thorough': t, 'args': ['--backend', 'all'] + (args or [])}
 
 PROPS = {
+    'C04': {
+        'streams': [{'name': 'fault', 'quick': 3, 'thorough': 25, 'args': ['--backend', 'all']}],
+        'assumptions': ['fault points = every store call the operation makes through the store interface (begin, get, set, delete, cursor, cursor item read, commit); Seek/Next/Valid/Rollback/Close cannot fail in either adapter',
+                        'lock release after a failure is exercised by the harness (follow-up write with a deadline), not modelled'],
+    },
+    'C05': {
+        'streams': [{'name': 'crash', 'quick': 3, 'thorough': 20},
+                    {'name': 'hist_reopen', 'cmd': 'hist', 'quick': 30, 'thorough': 300, 'args': ['--backend', 'bbolt,badgerdisk', '--focus', 'reopen']}],
+        'assumptions': ['the store commit itself is atomic and durable (bbolt meta-page swap + fsync, badger WAL): premise, not provable here; fsync, power loss and torn pages are outside the model and outside what a process kill exercises'],
+    },
     'C10': {
         'streams': [{'name': 'c10', 'quick': 40, 'thorough': 600}],
         'assumptions': ['no NaN; transitivity on triples where integers beyond 2^53 are not mixed with floats (cmp_dom3); key-order agreement inside key_dom: numbers within 2^53, times 1970..2262'],
@@ -30,6 +40,8 @@ PROPS = {
 }
 
 NOTES = {
+    'C04': {'technique': 'Coq proof that every write body commits last and errors propagate (no catch) + exhaustive store-call fault enumeration against the implementation on both backends'},
+    'C05': {'technique': 'Coq proof of crash atomicity of single-transaction operations (fault simulation lemma) + interruption at every store call on on-disk bbolt, SIGKILL runs, close/reopen histories'},
     'C10': {'technique': 'Coq proof (nested induction on values; composition laws for the byte encoders) + exhaustive pair/triple sweep of a boundary pool against the implementation'},
     'C11': {'technique': 'Coq proof of decode(encode d) = d on the wire model + read-back differential on both backends before/after reopen'},
     'C16': {'technique': 'Coq proof of the Boolean/operator/literal laws of the criteria evaluator + law-pair and model differential on Satisfy'},
@@ -40,7 +52,6 @@ NOTES = {
 NOT_APPLICABLE = {
     'C01': 'check under construction in this session (history correspondence exists; theorems pending)',
     'C02': 'check under construction in this session', 'C03': 'check under construction in this session',
-    'C04': 'check under construction in this session', 'C05': 'check under construction in this session',
     'C06': 'check under construction in this session', 'C07': 'check under construction in this session',
     'C08': 'check under construction in this session', 'C09': 'check under construction in this session',
     'C12': 'check under construction in this session', 'C13': 'check under construction in this session',
